@@ -93,6 +93,20 @@ simpl in H; apply andb_true_iff in H; destruct H as [H1 H2].
 constructor; [apply known_true_nothrow; exact H1|apply IH; exact H2].
 Qed.
 
+(* ---- the theorem above rests on the three guards: remove any one of them and some command throws ---- *)
+Lemma each_guard_is_needed :
+  fst (filter_skip_g (mkGuards false true true) NPrediction true (init false)) = Throws /\
+  fst (filter_skip_g (mkGuards true false true) NState true (init false)) = Throws /\
+  fst (filter_skip_g (mkGuards true true false) NExogenous true (init false)) = Throws.
+Proof. repeat split. Qed.
+
+(* with an exogenous model attached the guards are never exercised *)
+Lemma guards_irrelevant_with_model G w b f e : f_exo f = Some e ->
+  filter_skip_g G w b f = filter_skip w b f.
+Proof.
+destruct f as [p i s x c]; simpl; intros ->; destruct G as [[|] [|] [|]]; destruct w; reflexivity.
+Qed.
+
 (* ---- the flags after a word ---- *)
 Definition inv (f : flags) : Prop := f_pred f = f_state f && exo_or_true f.
 
@@ -199,25 +213,46 @@ Section Steps.
 Variable B : Type.
 Variable pstep : kind -> prop_mode -> B -> B -> B.
 Variable cstep : kind -> B -> B -> B.
+Variable same_shape : B -> B -> bool.
+Variable gpf_sliced : B -> B -> B.
 
-Lemma predict_skipped k f prev old : f_pred f = true -> predict B pstep k f prev old = prev.
+Lemma predict_skipped k f prev old : f_pred f = true -> predict B pstep same_shape gpf_sliced k f prev old = prev.
 Proof. unfold predict; intros ->; reflexivity. Qed.
 
 Lemma correct_skipped k f pred old : f_corr f = true -> correct B cstep k f pred old = pred.
 Proof. unfold correct; intros ->; reflexivity. Qed.
 
-(* Gaussian steps test the state model's flag themselves *)
-Lemma predict_state_skipped_gaussian k f prev old : k <> Boot -> f_state f = true ->
-  predict B pstep k f prev old = prev.
+(* Gaussian steps test the state model's flag themselves: on genuine Gaussian mixtures the
+   assignment is a whole-object one, for any shape of the output object *)
+Lemma predict_state_skipped_gaussian k f prev old : k = KF \/ k = UKF -> f_state f = true ->
+  predict B pstep same_shape gpf_sliced k f prev old = prev.
 Proof.
 unfold predict, predict_step; intros Hk ->; destruct (f_pred f); simpl; [reflexivity|].
-destruct k; try reflexivity; [contradiction|destruct (f_inner f); reflexivity].
+destruct Hk as [-> | ->]; reflexivity.
+Qed.
+
+(* inside a Gaussian-particle prediction the assignment is sliced: identity only on an output
+   object of the input's shape *)
+Lemma predict_state_skipped_gpf f prev old : f_state f = true -> same_shape prev old = true ->
+  predict B pstep same_shape gpf_sliced GPF f prev old = prev.
+Proof.
+unfold predict, predict_step, gpf_inner_identity; intros -> ->.
+destruct (f_pred f); simpl; [reflexivity|]; destruct (f_inner f); reflexivity.
+Qed.
+
+(* ... and what the code leaves otherwise (f_pred off, state model skipped, other shape) *)
+Lemma predict_state_skipped_gpf_other_shape f prev old :
+  f_pred f = false -> f_state f = true -> same_shape prev old = false ->
+  predict B pstep same_shape gpf_sliced GPF f prev old = gpf_sliced prev old.
+Proof.
+unfold predict, predict_step, gpf_inner_identity; intros -> -> ->; simpl.
+destruct (f_inner f); reflexivity.
 Qed.
 
 (* after "prediction on" or "all on" the prediction is the identity, whatever came before;
    likewise the correction after "correction on" or "all on" *)
 Lemma predict_identity_after_on have cs w k prev old : w = NPrediction \/ w = NAll ->
-  predict B pstep k (final (cs ++ [(w, true)]) (init have)) prev old = prev.
+  predict B pstep same_shape gpf_sliced k (final (cs ++ [(w, true)]) (init have)) prev old = prev.
 Proof.
 intros Hw; apply predict_skipped; rewrite final_app, final_one.
 destruct Hw as [-> | ->]; reflexivity.
@@ -233,7 +268,7 @@ Qed.
 (* and, by the derived rule, whenever the commands say so *)
 Lemma predict_identity_by_rule (have : bool) cs k prev old :
   last_status state_names false cs && (if have then last_status exo_names false cs else true) = true ->
-  predict B pstep k (final cs (init have)) prev old = prev.
+  predict B pstep same_shape gpf_sliced k (final cs (init have)) prev old = prev.
 Proof. intros H; apply predict_skipped; rewrite pred_reported; exact H. Qed.
 
 Lemma correct_identity_by_rule have cs k pred old :
@@ -274,7 +309,7 @@ Qed.
 
 (* the never-skipped filter runs the full step *)
 Lemma never_skipped_predict have k prev old :
-  predict B pstep k (init have) prev old = pstep k (if have then MFull else MStateOnly) prev old.
+  predict B pstep same_shape gpf_sliced k (init have) prev old = pstep k (if have then MFull else MStateOnly) prev old.
 Proof. destruct have; destruct k; reflexivity. Qed.
 
 Lemma never_skipped_correct have k pred old :
@@ -283,12 +318,12 @@ Proof. reflexivity. Qed.
 
 (* extensional equality of the step functions with those of a never-skipped filter *)
 Lemma reversible have cs k : all_off (final cs (init have)) ->
-  (forall prev old, predict B pstep k (final cs (init have)) prev old = predict B pstep k (init have) prev old) /\
+  (forall prev old, predict B pstep same_shape gpf_sliced k (final cs (init have)) prev old = predict B pstep same_shape gpf_sliced k (init have) prev old) /\
   (forall pred old, correct B cstep k (final cs (init have)) pred old = correct B cstep k (init have) pred old).
 Proof. intros H; rewrite (all_off_is_init have cs H); split; reflexivity. Qed.
 
 Lemma reversible_all_off have cs k :
-  (forall prev old, predict B pstep k (final (cs ++ [(NAll, false)]) (init have)) prev old =
+  (forall prev old, predict B pstep same_shape gpf_sliced k (final (cs ++ [(NAll, false)]) (init have)) prev old =
                     pstep k (if have then MFull else MStateOnly) prev old) /\
   (forall pred old, correct B cstep k (final (cs ++ [(NAll, false)]) (init have)) pred old = cstep k pred old).
 Proof.
@@ -309,18 +344,58 @@ Qed.
 
 Lemma reachable_predict have cs k prev old :
   let f := final cs (init have) in
-  predict B pstep k f prev old = prev \/
-  predict B pstep k f prev old = pstep k MFull prev old \/
-  predict B pstep k f prev old = pstep k MStateOnly prev old \/
-  (k = Boot /\ predict B pstep k f prev old = pstep k MExoOnly prev old).
+  predict B pstep same_shape gpf_sliced k f prev old = prev \/
+  predict B pstep same_shape gpf_sliced k f prev old = pstep k MFull prev old \/
+  predict B pstep same_shape gpf_sliced k f prev old = pstep k MStateOnly prev old \/
+  (k = Boot /\ predict B pstep same_shape gpf_sliced k f prev old = pstep k MExoOnly prev old) \/
+  (k = GPF /\ same_shape prev old = false /\ predict B pstep same_shape gpf_sliced k f prev old = gpf_sliced prev old).
 Proof.
 cbv zeta.
 destruct (flags_match_commands have cs) as (_ & _ & _ & _ & Hn).
 pose proof (reachable_prop_mode have cs) as Hm; cbv zeta in Hm.
-unfold predict, predict_step; rewrite Hn.
+unfold predict, predict_step, gpf_inner_identity; rewrite Hn.
 destruct (f_pred (final cs (init have))); simpl; [left; reflexivity|].
+destruct (same_shape prev old) eqn:Hsh;
 destruct (Hm eq_refl) as [-> | [-> | [-> Hs]]]; rewrite ?Hs;
   destruct k; simpl; destruct (f_state (final cs (init have))); tauto.
+Qed.
+
+(* ---- per-step reversibility: each step depends on its own flags only ---- *)
+Lemma predict_ext k f g prev old :
+  f_pred f = f_pred g -> f_inner f = f_inner g -> f_state f = f_state g -> f_exo f = f_exo g ->
+  predict B pstep same_shape gpf_sliced k f prev old = predict B pstep same_shape gpf_sliced k g prev old.
+Proof.
+destruct f as [p i s e c], g as [p' i' s' e' c']; simpl; intros -> -> -> ->; reflexivity.
+Qed.
+
+(* the prediction part switched off again (state off, exogenous off if there is such a model):
+   predict is the never-skipped predict, WHATEVER the correction's flag is *)
+Lemma predict_restored have cs k :
+  last_status state_names false cs = false ->
+  (have = true -> last_status exo_names false cs = false) ->
+  forall prev old,
+    predict B pstep same_shape gpf_sliced k (final cs (init have)) prev old =
+    predict B pstep same_shape gpf_sliced k (init have) prev old.
+Proof.
+intros Hs He prev old.
+destruct (flags_match_commands have cs) as (Fs & Fe & _ & Fp & Fn).
+apply predict_ext.
+- rewrite Fp, Fs, Hs; reflexivity.
+- rewrite Fn; destruct have; reflexivity.
+- rewrite Fs, Hs; destruct have; reflexivity.
+- rewrite Fe; destruct have; [rewrite (He eq_refl)|]; reflexivity.
+Qed.
+
+(* dual: the correction switched off again: correct is the never-skipped correct, whatever
+   the prediction, state and exogenous flags are *)
+Lemma correct_restored have cs k :
+  last_status corr_names false cs = false ->
+  forall pred old,
+    correct B cstep k (final cs (init have)) pred old = correct B cstep k (init have) pred old.
+Proof.
+intros Hc pred old.
+destruct (flags_match_commands have cs) as (_ & _ & Fc & _).
+unfold correct; rewrite Fc, Hc; destruct have; reflexivity.
 Qed.
 End Steps.
 
